@@ -283,6 +283,291 @@ theorem init_good (hself : start ∉ nbr start) :
 
 end
 
+/-! ### generations of the worklist and the exact characterisation of the result set -/
+
+section
+variable (nbr : Nat → List Nat) (len : Nat → Rat) (start : Nat) (maxLen : Rat)
+
+/-- The worklist after `k` rounds of the `while` loop. -/
+def genFrom (paths : List Item) : Nat → List Item
+  | 0 => paths
+  | k + 1 => genFrom (paths.flatMap (nexts nbr len start maxLen)) k
+
+/-- A returned path stops for one of the reasons the code knows (lanelet.py:935-950):
+    * it is the extension that reached the range (`l_next >= max_length`, :949-950), or
+    * it is a worklist entry (a single direct neighbour, or accumulated length still below the range) whose last lanelet
+      is a dead end (:935-936) or has SOME neighbour that is refused — already on the path, the start lanelet, or the
+      accumulated length is at or beyond the range (:940-943). -/
+def Stopped (q : Path) : Prop :=
+  (2 ≤ q.length ∧ maxLen ≤ sumLen len q) ∨
+  ((q.length = 1 ∨ sumLen len q < maxLen) ∧
+    ∃ x, q.getLast? = some x ∧ (nbr x = [] ∨ ∃ s ∈ nbr x, s ∈ q ∨ s = start ∨ maxLen ≤ sumLen len q))
+
+/-- Entry of the worklist in round `k`. -/
+def EntryAt (k : Nat) (it : Item) : Prop :=
+  Good nbr len start maxLen it ∧ it.1.length = k + 1 ∧ (k = 0 ∨ it.2 < maxLen)
+
+variable {nbr len start maxLen}
+
+theorem genFrom_nil : ∀ k, genFrom nbr len start maxLen [] k = []
+  | 0 => rfl
+  | k + 1 => by simp [genFrom, genFrom_nil k]
+
+theorem genFrom_succ' : ∀ (k : Nat) (paths : List Item),
+    genFrom nbr len start maxLen paths (k + 1) = (genFrom nbr len start maxLen paths k).flatMap (nexts nbr len start maxLen)
+  | 0, _ => rfl
+  | k + 1, paths => by
+    have := genFrom_succ' k (paths.flatMap (nexts nbr len start maxLen))
+    simp only [genFrom] at this ⊢
+    exact this
+
+theorem mem_nexts_iff {p : Path} {le : Rat} {x : Item} :
+    x ∈ nexts nbr len start maxLen (p, le) ↔
+      ∃ s ∈ nbrsOfLast nbr p, blocked start maxLen p le s = false ∧ le + len s < maxLen ∧ x = (p ++ [s], le + len s) := by
+  simp only [nexts, List.mem_filterMap]
+  constructor
+  · rintro ⟨s, hs, hsome⟩
+    unfold nextOf at hsome
+    cases hb : blocked start maxLen p le s with
+    | true => simp [hb] at hsome
+    | false =>
+      simp only [hb, Bool.false_eq_true, if_false] at hsome
+      split at hsome
+      · rename_i hlt
+        simp only [Option.some.injEq] at hsome
+        exact ⟨s, hs, hb, hlt, hsome.symm⟩
+      · simp at hsome
+  · rintro ⟨s, hs, hb, hlt, rfl⟩
+    exact ⟨s, hs, by simp [nextOf, hb, hlt]⟩
+
+theorem mem_finals_iff {p : Path} {le : Rat} {q : Path} :
+    q ∈ finals nbr len start maxLen (p, le) ↔
+      (nbrsOfLast nbr p = [] ∧ q = p) ∨
+      (∃ s ∈ nbrsOfLast nbr p, blocked start maxLen p le s = true ∧ q = p) ∨
+      (∃ s ∈ nbrsOfLast nbr p, blocked start maxLen p le s = false ∧ ¬ (le + len s < maxLen) ∧ q = p ++ [s]) := by
+  unfold finals
+  simp only
+  cases hss : nbrsOfLast nbr p with
+  | nil => simp
+  | cons a as =>
+    simp only [List.mem_filterMap]
+    constructor
+    · rintro ⟨s, hs, hsome⟩
+      unfold finalOf at hsome
+      cases hb : blocked start maxLen p le s with
+      | true =>
+        simp [hb] at hsome
+        exact Or.inr (Or.inl ⟨s, hs, hb, hsome.symm⟩)
+      | false =>
+        simp only [hb, Bool.false_eq_true, if_false] at hsome
+        split at hsome
+        · simp at hsome
+        · rename_i hlt
+          simp only [Option.some.injEq] at hsome
+          exact Or.inr (Or.inr ⟨s, hs, hb, hlt, hsome.symm⟩)
+    · rintro (⟨h, _⟩ | ⟨s, hs, hb, rfl⟩ | ⟨s, hs, hb, hlt, rfl⟩)
+      · simp at h
+      · exact ⟨s, hs, by simp [finalOf, hb]⟩
+      · exact ⟨s, hs, by simp [finalOf, hb, hlt]⟩
+
+theorem linked_snoc_inv : ∀ (p : Path) (s : Nat), p ≠ [] → Linked nbr (p ++ [s]) →
+    Linked nbr p ∧ ∃ x, p.getLast? = some x ∧ s ∈ nbr x
+  | [], _, h, _ => absurd rfl h
+  | [a], s, _, hl => ⟨trivial, a, rfl, hl.1⟩
+  | a :: b :: t, s, _, hl => by
+    obtain ⟨h1, x, hx, hs⟩ := linked_snoc_inv (b :: t) s (by simp) hl.2
+    exact ⟨⟨hl.1, h1⟩, x, by rw [List.getLast?_cons_cons]; exact hx, hs⟩
+
+/-- The converse of `good_extend`: the last step of a sound path was an admissible extension of a sound path. -/
+theorem sound_unextend {p : Path} {s : Nat} (hp : p ≠ []) (h : Sound nbr len start maxLen (p ++ [s])) :
+    Sound nbr len start maxLen p ∧ s ∈ nbrsOfLast nbr p ∧ blocked start maxLen p (sumLen len p) s = false := by
+  obtain ⟨⟨hd, tl, hq, hh⟩, hl, hn, hst, hg⟩ := h
+  obtain ⟨hlp, x, hx, hsx⟩ := linked_snoc_inv p s hp hl
+  rw [List.nodup_append] at hn
+  obtain ⟨hnp, _, hdis⟩ := hn
+  have hsp : s ∉ p := fun hmem => hdis s hmem s (by simp) rfl
+  simp only [List.mem_append, List.mem_singleton, not_or] at hst
+  have hlen : 0 < p.length := List.length_pos_iff.mpr hp
+  have hlt : sumLen len p < maxLen := by
+    have := hg p.length hlen (by simp)
+    rwa [List.take_append_of_le_length (Nat.le_refl _), List.take_length] at this
+  refine ⟨⟨?_, hlp, hnp, hst.1, ?_⟩, ?_, ?_⟩
+  · cases p with
+    | nil => exact absurd rfl hp
+    | cons a t =>
+      simp only [List.cons_append, List.cons.injEq] at hq
+      exact ⟨a, t, rfl, hq.1 ▸ hh⟩
+  · intro j hj0 hj
+    have := hg j hj0 (by simp; omega)
+    rwa [List.take_append_of_le_length (by omega)] at this
+  · simp [nbrsOfLast, hx, hsx]
+  · simp only [blocked, Bool.or_eq_false_iff, decide_eq_false_iff_not]
+    exact ⟨⟨hsp, fun h' => hst.2 h'.symm⟩, not_le.mpr hlt⟩
+
+theorem exists_snoc_of_length {p : Path} {k : Nat} (h : p.length = k + 2) :
+    ∃ p' s, p = p' ++ [s] ∧ p'.length = k + 1 := by
+  have hne : p ≠ [] := by intro h0; simp [h0] at h
+  refine ⟨p.dropLast, p.getLast hne, (List.dropLast_concat_getLast hne).symm, ?_⟩
+  simp [List.length_dropLast, h]
+
+/-- Exactly the invariant-satisfying chains of length `k+1` (accumulated length below the range for `k ≥ 1`) are on the
+    worklist in round `k`: nothing the rule generates is lost. -/
+theorem mem_gen_iff (hself : start ∉ nbr start) : ∀ (k : Nat) (it : Item),
+    it ∈ genFrom nbr len start maxLen (initItems nbr len start) k ↔ EntryAt nbr len start maxLen k it
+  | 0, it => by
+    simp only [genFrom, EntryAt, true_or, and_true]
+    constructor
+    · intro h
+      refine ⟨init_good hself it h, ?_⟩
+      simp only [initItems, List.mem_map] at h
+      obtain ⟨s, _, rfl⟩ := h
+      rfl
+    · rintro ⟨hg, hlen⟩
+      obtain ⟨p, le⟩ := it
+      obtain ⟨hd, tl, hq, hh⟩ := hg.sound.head
+      simp only at hq hlen
+      subst hq
+      have htl : tl = [] := by
+        simp only [List.length_cons] at hlen
+        exact List.length_eq_zero_iff.mp (by omega)
+      subst htl
+      have hle : le = len hd := by have := hg.len_eq; simpa [sumLen] using this
+      subst hle
+      simp only [initItems, List.mem_map]
+      exact ⟨hd, hh, rfl⟩
+  | k + 1, it => by
+    rw [genFrom_succ', List.mem_flatMap]
+    constructor
+    · rintro ⟨i, hi, hit⟩
+      obtain ⟨hgi, hleni, _⟩ := (mem_gen_iff hself k i).mp hi
+      obtain ⟨p, le⟩ := i
+      obtain ⟨s, _, _, hlt, rfl⟩ := mem_nexts_iff.mp hit
+      refine ⟨good_of_mem_nexts hgi hit, ?_, Or.inr hlt⟩
+      simp only at hleni
+      simp [hleni]
+    · rintro ⟨hg, hlen, hlt⟩
+      obtain ⟨q, le⟩ := it
+      simp only at hlen
+      obtain ⟨p, s, rfl, hpl⟩ := exists_snoc_of_length hlen
+      have hp : p ≠ [] := by intro h0; simp [h0] at hpl
+      obtain ⟨hsp, hs, hb⟩ := sound_unextend hp hg.sound
+      have hle : le = sumLen len p + len s := by
+        have := hg.len_eq; simp only at this; rw [this, sumLen_append_single]
+      have hlt' : le < maxLen := by
+        rcases hlt with h0 | h1
+        · omega
+        · exact h1
+      have hpm : sumLen len p < maxLen := (blocked_false hb).2.2
+      refine ⟨(p, sumLen len p), (mem_gen_iff hself k _).mpr ⟨⟨hsp, rfl⟩, hpl, Or.inr hpm⟩, ?_⟩
+      rw [mem_nexts_iff]
+      exact ⟨s, hs, hb, by rw [← hle]; exact hlt', by rw [hle]⟩
+
+/-- Membership in the result of the loop: what was final before, or a `finals` entry of some round. -/
+theorem loop_mem : ∀ (fuel : Nat) (paths : List Item) (final res : List Path),
+    loop nbr len start maxLen fuel paths final = some res →
+    ∀ q, q ∈ res ↔ q ∈ final ∨ ∃ k, ∃ it ∈ genFrom nbr len start maxLen paths k, q ∈ finals nbr len start maxLen it
+  | _, [], final, res, h => by
+    simp only [loop, Option.some.injEq] at h
+    subst h
+    intro q
+    simp [genFrom_nil]
+  | 0, _ :: _, _, _, h => by simp [loop] at h
+  | fuel + 1, it :: its, final, res, h => by
+    simp only [loop] at h
+    have ih := loop_mem fuel _ _ res h
+    intro q
+    rw [ih q, List.mem_append, List.mem_flatMap]
+    constructor
+    · rintro ((hq | ⟨i, hi, hqi⟩) | ⟨k, i, hi, hqi⟩)
+      · exact Or.inl hq
+      · exact Or.inr ⟨0, i, hi, hqi⟩
+      · exact Or.inr ⟨k + 1, i, hi, hqi⟩
+    · rintro (hq | ⟨k, i, hi, hqi⟩)
+      · exact Or.inl (Or.inl hq)
+      · cases k with
+        | zero => exact Or.inl (Or.inr ⟨i, hi, hqi⟩)
+        | succ k => exact Or.inr ⟨k, i, hi, hqi⟩
+
+/-- Every entry of every round is a prefix of a returned path. -/
+theorem loop_covers_gen : ∀ (fuel : Nat) (paths : List Item) (final res : List Path),
+    loop nbr len start maxLen fuel paths final = some res →
+    ∀ k, ∀ it ∈ genFrom nbr len start maxLen paths k, ∃ q ∈ res, it.1 <+: q
+  | _, [], _, _, _ => by intro k it hit; simp [genFrom_nil] at hit
+  | 0, _ :: _, _, _, h => by simp [loop] at h
+  | fuel + 1, it :: its, final, res, h => by
+    intro k
+    cases k with
+    | zero => exact (loop_covers (fuel + 1) (it :: its) final res h).2
+    | succ k =>
+      simp only [loop] at h
+      exact loop_covers_gen fuel _ _ res h k
+
+/-- **Exact characterisation of the result set**: the returned paths are precisely the sound chains that stopped for one
+    of the code's reasons. -/
+theorem mem_result_iff (hself : start ∉ nbr start) (fuel : Nat) (res : List Path)
+    (h : findInRange nbr len start maxLen fuel = some res) (q : Path) :
+    q ∈ res ↔ Sound nbr len start maxLen q ∧ Stopped nbr len start maxLen q := by
+  unfold findInRange at h
+  rw [loop_mem fuel _ _ res h q]
+  simp only [List.not_mem_nil, false_or]
+  constructor
+  · rintro ⟨k, it, hit, hq⟩
+    obtain ⟨hg, hlen, hk⟩ := (mem_gen_iff hself k it).mp hit
+    obtain ⟨p, le⟩ := it
+    have hle : le = sumLen len p := hg.len_eq
+    simp only at hlen
+    have hp : p ≠ [] := by intro h0; simp [h0] at hlen
+    have hentry : p.length = 1 ∨ sumLen len p < maxLen := by
+      rcases hk with h0 | h1
+      · left; omega
+      · right; rw [← hle]; exact h1
+    obtain ⟨x, hx⟩ : ∃ x, p.getLast? = some x := by
+      cases hgl : p.getLast? with
+      | none => exact absurd (List.getLast?_eq_none_iff.mp hgl) hp
+      | some x => exact ⟨x, rfl⟩
+    have hnl : nbrsOfLast nbr p = nbr x := by simp [nbrsOfLast, hx]
+    rcases mem_finals_iff.mp hq with ⟨hnil, rfl⟩ | ⟨s, hs, hb, rfl⟩ | ⟨s, hs, hb, hlt, rfl⟩
+    · exact ⟨hg.sound, Or.inr ⟨hentry, x, hx, Or.inl (by rw [← hnl]; exact hnil)⟩⟩
+    · refine ⟨hg.sound, Or.inr ⟨hentry, x, hx, Or.inr ⟨s, by rw [← hnl]; exact hs, ?_⟩⟩⟩
+      simp only [blocked, Bool.or_eq_true, decide_eq_true_eq] at hb
+      rcases hb with (h1 | h2) | h3
+      · exact Or.inl h1
+      · exact Or.inr (Or.inl h2)
+      · exact Or.inr (Or.inr (by rw [← hle]; exact h3))
+    · refine ⟨(good_extend hg hs hb).sound, Or.inl ⟨by simp; omega, ?_⟩⟩
+      rw [sumLen_append_single, ← hle]
+      exact not_lt.mp hlt
+  · rintro ⟨hs, hstop⟩
+    obtain ⟨hd, tl, hq, _⟩ := hs.head
+    rcases hstop with ⟨h2, hge⟩ | ⟨hentry, x, hx, hwhy⟩
+    · obtain ⟨k, hk⟩ : ∃ k, q.length = k + 2 := ⟨q.length - 2, by omega⟩
+      obtain ⟨p, s, rfl, hpl⟩ := exists_snoc_of_length hk
+      have hp : p ≠ [] := by intro h0; simp [h0] at hpl
+      obtain ⟨hsp, hsn, hb⟩ := sound_unextend hp hs
+      have hpm : sumLen len p < maxLen := (blocked_false hb).2.2
+      refine ⟨k, (p, sumLen len p), (mem_gen_iff hself k _).mpr ⟨⟨hsp, rfl⟩, hpl, Or.inr hpm⟩, ?_⟩
+      rw [mem_finals_iff]
+      refine Or.inr (Or.inr ⟨s, hsn, hb, ?_, rfl⟩)
+      rw [sumLen_append_single] at hge
+      exact not_lt.mpr hge
+    · have hql : q.length = (q.length - 1) + 1 := by subst hq; simp
+      have hnl : nbrsOfLast nbr q = nbr x := by simp [nbrsOfLast, hx]
+      refine ⟨q.length - 1, (q, sumLen len q), (mem_gen_iff hself _ _).mpr ⟨⟨hs, rfl⟩, hql, ?_⟩, ?_⟩
+      · rcases hentry with h1 | h1
+        · left; omega
+        · right; exact h1
+      · rw [mem_finals_iff]
+        rcases hwhy with hnil | ⟨s, hsx, hwhy⟩
+        · exact Or.inl ⟨by rw [hnl]; exact hnil, rfl⟩
+        · refine Or.inr (Or.inl ⟨s, by rw [hnl]; exact hsx, ?_, rfl⟩)
+          simp only [blocked, Bool.or_eq_true, decide_eq_true_eq]
+          rcases hwhy with h1 | h2 | h3
+          · exact Or.inl (Or.inl h1)
+          · exact Or.inl (Or.inr h2)
+          · exact Or.inr h3
+
+end
+
 /-! ### networks given as data -/
 
 theorem lookup_mem {g : List Node} {i : Nat} {n : Node} (h : lookup g i = some n) : n ∈ g :=
